@@ -115,18 +115,22 @@ def run(repo, chk):
         raise ExtractError("_split_or_break_pipe: `if add_pipe_at_end` not found")
     ol = [n for n in sp_fn.body if isinstance(n, ast.Assign) and unparse(n.targets[0]) == "original_length"]
     chk.expect(bool(ol) and unparse(ol[0].value) == "pipe.length", "R-C19-1", "original_length is the pipe's length before any change", loc(sp_fn), found=unparse(ol[0].value) if ol else None)
+    env_top = local_env(sp_fn.body, br[0].lineno)
+    L = env_top.get("original_length", L)
     for label, body in (("new pipe at the end", br[0].body), ("new pipe at the start", br[0].orelse)):
         mod = ast.Module(body=body, type_ignores=[])
+        env_b = dict(env_top)
+        env_b.update(local_env(body))
         ap = [c for c in calls(mod) if last_attr(c) == "add_pipe"]
         la = [n for n in walk(mod) if isinstance(n, ast.Assign) and unparse(n.targets[0]) == "pipe.length"]
         rewire = [n for n in walk(mod) if isinstance(n, ast.Assign) and unparse(n.targets[0]) in ("pipe.end_node", "pipe.start_node")]
         if len(ap) != 1 or len(la) != 1 or len(rewire) != 1:
             raise ExtractError("_split_or_break_pipe (%s): expected one add_pipe, one pipe.length store and one re-wiring, found %d/%d/%d" % (label, len(ap), len(la), len(rewire)))
         args = bind_args(ap[0], ap_names)
-        new_len = sp.expand(S(args["length"], {}))
-        old_len = sp.expand(S(la[0].value, {}))
+        new_len = sp.expand(S(args["length"], env_top))
+        old_len = sp.expand(S(la[0].value, env_top))
         chk.expect(sp.simplify(new_len + old_len - L) == 0, "R-C19-1", "%s: new length + retained length = original length" % label, loc(sp_fn, ap[0]),
-                   "split/break must keep the total pipe length", expected="original_length", found=str(new_len + old_len))
+                   "split/break must keep the total pipe length", expected=str(L), found=str(new_len + old_len))
         keeps_start = unparse(rewire[0].targets[0]) == "pipe.end_node"
         want_old = L * s if keeps_start else L * (1 - s)
         chk.expect(sp.simplify(old_len - sp.expand(want_old)) == 0, "R-C19-1", "%s: the part that keeps the %s node is %s of the length" % (
@@ -142,14 +146,23 @@ def run(repo, chk):
         chk.expect(okw, "R-C19-3", "%s: the old pipe is re-wired to j0 through the end-node setter and the new pipe runs between j1 and the original far node" % label, loc(sp_fn, ap[0]),
                    found="old pipe %s = %s; new pipe %s -> %s" % (unparse(rewire[0].targets[0]), j_old, sn, en))
         # R-C19-2 copied attributes
-        for pname in ("diameter", "roughness", "minor_loss"):
+        for pname in ("diameter", "roughness"):
             chk.expect(pname in args and unparse(args[pname]) == "pipe." + pname, "R-C19-2", "%s: add_pipe parameter %s receives pipe.%s" % (label, pname, pname), loc(sp_fn, ap[0]),
                        "arguments are resolved through add_pipe's signature %s" % ap_names, expected="pipe." + pname, found=unparse(args[pname]) if pname in args else "<default>")
+        # quantities that add up along the pipe are partitioned, not duplicated: K_new + K_retained = K_original (like the lengths)
+        ml_old = [n for n in walk(mod) if isinstance(n, ast.Assign) and unparse(n.targets[0]) == "pipe.minor_loss"]
+        k_new = S(args["minor_loss"], {}) if "minor_loss" in args else sp.Integer(0)
+        k_old = S(ml_old[0].value, {}) if ml_old else sp.Symbol("pipe.minor_loss")
+        chk.expect(sp.simplify(k_new + k_old - sp.Symbol("pipe.minor_loss")) == 0, "R-C19-2b",
+                   "%s: the minor-loss coefficients of the two pipes add up to the original pipe's" % label, loc(sp_fn, ap[0]),
+                   "minor loss is K*v^2/2g per pipe: copying K to both halves doubles it, so SPLIT changes the heads downstream although the statement says it "
+                   "leaves the hydraulics of the rest of the network unchanged", expected="K_new + K_retained = pipe.minor_loss", found="%s + %s" % (k_new, k_old))
         cv = args.get("check_valve")
         chk.expect(cv is None or const(cv, 1) is False, "R-C19-2", "%s: the new pipe gets no check valve" % label, loc(sp_fn, ap[0]),
                    "documented: 'Check valves are not added to the new pipe'", expected="False (or omitted)", found=unparse(cv) if cv is not None else "omitted")
         chk.expect(unparse(args["name"]) == "new_pipe_name", "R-C19-2", "%s: the new pipe is created under new_pipe_name" % label, loc(sp_fn, ap[0]))
-    chk.floor("R-C19-2", 10)
+    chk.floor("R-C19-2", 8)
+    chk.floor("R-C19-2b", 2)
 
     # elevation
     el = [n for n in walk(sp_fn) if isinstance(n, ast.Assign) and unparse(n.targets[0]) == "junction_elevation"]
@@ -170,8 +183,13 @@ def run(repo, chk):
             chk.expect(sp.simplify(v - sp.expand(e0 + (e1 - e0) * s)) == 0, "R-C19-1", "junction elevation = e_start + (e_end - e_start) * s", loc(sp_fn, a), found=str(v))
     # coordinates without vertices
     jc = [n for n in walk(sp_fn) if isinstance(n, ast.Assign) and unparse(n.targets[0]) == "junction_coordinates"]
+    dflt = [a for a in jc if not isinstance(a.value, ast.Tuple)]
+    jc = [a for a in jc if isinstance(a.value, ast.Tuple)]
+    for a in dflt:
+        chk.expect(unparse(a.value) in ("pipe.start_node.coordinates", "start_node.coordinates"), "R-C19-1", "the default junction position (split at the very start) is the start node", loc(sp_fn, a),
+                   found=unparse(a.value))
     if len(jc) != 2:
-        raise ExtractError("expected two junction_coordinates definitions, found %d" % len(jc))
+        raise ExtractError("expected two interpolating junction_coordinates definitions, found %d" % len(jc))
     for a in jc:
         blk = None
         q = a
@@ -207,6 +225,15 @@ def run(repo, chk):
     okj = len(aj) == 1 and {k.arg: unparse(k.value) for k in aj[0].keywords}.get("elevation") == "junction_elevation" and \
         {k.arg: unparse(k.value) for k in aj[0].keywords}.get("coordinates") == "junction_coordinates"
     chk.expect(okj, "R-C19-1", "the new junction(s) are created with the interpolated elevation and coordinates", loc(sp_fn, aj[0]) if aj else loc(sp_fn))
+    # definite assignment: on every path to add_junction the elevation and the coordinates have been computed
+    from ..cfg import CFG
+    g = CFG(sp_fn)
+    usej = g.calling("add_junction")
+    for var in ("junction_elevation", "junction_coordinates"):
+        defs = g.assigning(var)
+        okd, w = g.must_pass(g.entry, usej, defs)
+        chk.expect(bool(usej) and bool(defs) and okd, "R-C19-1", "%s is assigned on every path that reaches add_junction" % var, loc(sp_fn),
+                   "a path that skips every assignment raises UnboundLocalError for an admissible split_at_point", found=("path: " + g.path_text(w)[:300]) if w else None)
     # range check before any mutation
     muts = mutations(list(sp_fn.body))
     muts = [m for m in muts if not (isinstance(m[3], ast.Assign) and isinstance(m[3].targets[0], ast.Name))]
@@ -437,6 +464,7 @@ WITNESSES = [
     dict(name="new-pipe-gets-check-valve", file=LINK, old="                     original_length * (1 - split_at_point), pipe.diameter,\n                     pipe.roughness, pipe.minor_loss, pipe.status, False)",
          new="                     original_length * (1 - split_at_point), pipe.diameter,\n                     pipe.roughness, pipe.minor_loss, pipe.status, pipe.check_valve)", rule="R-C19-2"),
     dict(name="lengths-swapped-at-start", file=LINK, old="        pipe.length = original_length * (1 - split_at_point)\n", new="        pipe.length = original_length * split_at_point\n", rule="R-C19-1"),
+    dict(name="coordinates-undefined-at-zero", file=LINK, old="        junction_coordinates = pipe.start_node.coordinates\n", new="", rule="R-C19-1"),
     dict(name="roughness-minor-loss-swapped", file=LINK, old="                     original_length * split_at_point, pipe.diameter,\n                     pipe.roughness, pipe.minor_loss,",
          new="                     original_length * split_at_point, pipe.diameter,\n                     pipe.minor_loss, pipe.roughness,", rule="R-C19-2"),
     dict(name="elevation-from-wrong-end", file=LINK, old="        junction_elevation = e0 + de * split_at_point", new="        junction_elevation = e0 + de * (1 - split_at_point)", rule="R-C19-1"),
